@@ -111,10 +111,16 @@ def gen_history(rng, maxlen):
         pool.append((d + "/" + n) if d else n)
     pool += [d for d in dirs if d]
     made = []          # paths mentioned so far: later operations prefer them
+    files = []         # a rough idea of what exists, only to steer the choice (the models decide)
+    dirs_made = []
 
-    def path(target=False):
+    def path(target=False, want=None):
         r = rng.random()
-        if made and r < 0.55:
+        if want == "file" and files and r < 0.7:
+            p = rng.choice(files)
+        elif want == "any" and (files or dirs_made) and r < 0.65:
+            p = rng.choice(files + dirs_made)
+        elif made and r < 0.55:
             p = rng.choice(made)
         else:
             p = rng.choice(pool)
@@ -123,7 +129,7 @@ def gen_history(rng, maxlen):
             p = p + "/" + rng.choice(NAMES)          # below a file / into a directory
         elif r < 0.10 and "/" in p:
             p = p.rsplit("/", 1)[0]                   # the parent
-        if rng.random() < (0.14 if target else 0.05):
+        if rng.random() < (0.12 if target else 0.04):
             p = p + "/"                               # written as a directory
         made.append(p.rstrip("/"))
         return p
@@ -144,26 +150,49 @@ def gen_history(rng, maxlen):
     for _ in range(rng.randint(1, maxlen)):
         k = rng.choice(kinds)
         if k in ("W", "A"):
-            ops.append((k, path(True), text()))
+            p = path(True, "file" if k == "A" and rng.random() < 0.6 else None)
+            ops.append((k, p, text()))
+            if not p.endswith("/"):
+                files.append(p)
         elif k == "WB":
-            ops.append((k, path(True), blob()))
+            p = path(True)
+            ops.append((k, p, blob()))
+            if not p.endswith("/"):
+                files.append(p)
         elif k in ("CP", "MV"):
-            a = path()
-            b = a if rng.random() < 0.05 else path(True)
+            a = path(False, "file")
+            b = a if rng.random() < 0.04 else path(True, "any" if rng.random() < 0.4 else None)
             ops.append((k, a, b))
+            if k == "MV" and a in files:
+                files.remove(a)
+            if not b.endswith("/"):
+                files.append(b)
         elif k == "RM":
             fl = rng.choice(FLAGS) if rng.random() < 0.5 else None
             n = rng.choice([1, 1, 1, 2, 3, 0]) if fl else rng.choice([1, 1, 1, 2, 3])
-            ops.append((k, fl, [path() for _ in range(n)]))
+            ps = [path(False, "any") for _ in range(n)]
+            ops.append((k, fl, ps))
+            for p in ps:
+                if p in files:
+                    files.remove(p)
         elif k in ("BN", "DN"):
             ops.append((k, rng.choice(TEXT_PATHS) if rng.random() < 0.6 else "/".join(
                 rng.choice(["a", "b c", "", "é.x", "", ".h"]) for _ in range(rng.randint(1, 5)))))
         elif k == "JP":
             ops.append((k, [rng.choice(JP_PARTS) for _ in range(rng.randint(1, 4))]))
         elif k == "T":
-            ops.append((k, path(True)))
+            p = path(True)
+            ops.append((k, p))
+            if not p.endswith("/"):
+                files.append(p)
+        elif k == "MK":
+            p = path()
+            ops.append((k, p))
+            dirs_made.append(p.rstrip("/"))
+        elif k in ("R", "RB", "SZ"):
+            ops.append((k, path(False, "file")))
         else:
-            ops.append((k, path()))
+            ops.append((k, path(False, "any")))
     return ops
 
 
@@ -221,21 +250,20 @@ def run(ck):
     ck.harness_build(["c18"])
     model_ok = not any(b.startswith("ocaml") for b in ck.broken) and os.path.exists(
         os.path.join(vlib.ROOT, "ocaml", "bin", "c18_model"))
-    scratch = os.path.join(vlib.CACHE, "c18")
+    scratch = os.path.join(vlib.CACHE, "c18", "run-%d" % os.getpid())     # never /tmp; removed below
     os.makedirs(scratch, exist_ok=True)
     found = False
     try:
-        if ck.replay:
-            r = json.load(open(ck.replay))
-            hist = [r["wire"]]
-        else:
-            hist = None
         if model_ok:
-            found = correspondence(ck, scratch, hist)
+            found = correspondence(ck, scratch)
         else:
             ck.coverage.update({"evaluations": 0, "distinct_nontrivial": 0, "rule": "model did not build", "samples": []})
     finally:
         shutil.rmtree(scratch, ignore_errors=True)
+        try:
+            os.rmdir(os.path.dirname(scratch))        # only when no other run is using it
+        except OSError:
+            pass
     ck.report_broken(found)
     ck.assumptions += [
         "PARTIAL: the file system is modelled, not verified. The primitive specifications p_* (stat / create_dir_all / "
@@ -253,9 +281,39 @@ def run(ck):
     ]
 
 
+def replay(ck, data):
+    """bin/vcheck C18 --replay file: re-run the recorded history on both sides, step by step"""
+    wire = data.get("wire")
+    if wire is None:
+        print("replay: this file names a broken obligation, not an input; re-run the check itself")
+        return 1
+    ck.ocaml_build()
+    ck.harness_build(["c18"])
+    scratch = os.path.join(vlib.CACHE, "c18", "run-%d" % os.getpid())
+    os.makedirs(scratch, exist_ok=True)
+    try:
+        sp, it = run_one(ck, scratch, wire)
+        mt, st, fl = sp
+        for j, op in enumerate(wire.split("\t")[1:]):
+            print("step %d  %s   domain=%s class=%s" % (j, op, fl[j][0], fl[j][1]))
+            print("   implementation:", json.dumps(show_step(it[j]) if j < len(it) else None, ensure_ascii=False))
+            print("   model M:       ", json.dumps(show_step(mt[j]), ensure_ascii=False))
+            print("   spec S:        ", json.dumps(show_step(st[j]), ensure_ascii=False))
+        j = fails_at(ck, scratch, wire)
+    finally:
+        shutil.rmtree(scratch, ignore_errors=True)
+        try:
+            os.rmdir(os.path.dirname(scratch))
+        except OSError:
+            pass
+    print("REPLAY: " + ("agree now" if j is None else "still disagree at step %d" % j))
+    return 0 if j is None else 1
+
+
 def correspondence(ck, scratch, only=None):
     rng = ck.rng
     thorough = ck.tier == "thorough"
+    n_small = 0
     if only is not None:
         lines = list(only)
         n_corpus = 0
@@ -275,7 +333,7 @@ def correspondence(ck, scratch, only=None):
             for b in small:
                 hs.append(base + [a, b, ("R", "f"), ("R", "d/g.txt")])
         n_small = len(hs) - n_corpus
-        for _ in range(12000 if thorough else 2200):
+        for _ in range(40000 if thorough else 3000):
             hs.append(gen_history(rng, 40))
         lines = [line_of(h) for h in hs]
         # keep the histories inside the domain: drop the first off-domain operation (a cp / mv whose
@@ -303,6 +361,7 @@ def correspondence(ck, scratch, only=None):
     m_out = ck.model(lines)
     i_out = ck.impl(lines, args=(scratch,))
     found = False
+    reported = set()
     steps = 0
     nontriv = set()
     dist = {}
@@ -335,7 +394,7 @@ def correspondence(ck, scratch, only=None):
                 nontriv.add(prev_dump + "\t" + op)
             prev_dump = mo_dump
             in_spec = first_known is None or j < first_known
-            if in_spec and mt[j] != st[j]:
+            if in_spec and mt[j] != st[j] and len(ck.broken) < 5:
                 ck.broken.append("extracted M and S disagree inside the domain (C18_refines would be false): step %d of %s" % (j, line[:200]))
             bad = None
             if iv != mt[j]:
@@ -354,7 +413,9 @@ def correspondence(ck, scratch, only=None):
                 found = True
                 if len(ck.violations) < 5:
                     sh_line, sh_j = shrink(ck, scratch, line, j)
-                    ck.violation(describe(bad, sh_line, sh_j, ck, scratch))
+                    if sh_line not in reported:
+                        reported.add(sh_line)
+                        ck.violation(describe(bad, sh_line, sh_j, ck, scratch))
                 break
         if len(samples) < 4 and idx in (0, n_corpus, len(lines) // 2, len(lines) - 1):
             samples.append(line[:300])
@@ -370,7 +431,7 @@ def correspondence(ck, scratch, only=None):
                 "compared with the extracted M (always) and S (up to the first step of a known class); non-trivial = "
                 "distinct (tree before, operation) pair whose step changes the tree or returns a value / bytes / listing",
         "exhaustive": True,
-        "exhaustive_part": {"corpus": n_corpus, "operation pairs on a fixed 3-node tree": (len(CORPUS) and (only is None)) and n_small or 0},
+        "exhaustive_part": {"corpus": n_corpus, "operation pairs on a fixed 3-node tree": n_small},
         "samples": samples,
         "history_length_distribution": hist_len,
         "step_distribution(kind:output:effect)": dict(sorted(dist.items())),
